@@ -653,16 +653,23 @@ class Parser:
 
     def expand_help(self, atoms: list[tuple[ast.Name, TokenInfo]], **_: int) -> ast.Call | None:
         node: ast.Call | None = None
+        start: dict[str, int] = {}
         for atom, tok in atoms:
             fn = "superhelp" if tok.is_exact_type("??") else "help"
             if node is None:
-                node = xonsh_call(f"__xonsh__.{fn}", atom, **tok.loc())
+                # the construct starts at its first atom and ends at the current `?`
+                start = {"lineno": atom.lineno, "col_offset": atom.col_offset}
+                node = xonsh_call(f"__xonsh__.{fn}", atom, **start, **tok.loc_end())
             else:
-                node = xonsh_call(
-                    f"__xonsh__.{fn}",
-                    ast.Attribute(value=node, attr=atom.id, ctx=Load, **tok.loc()),
-                    **tok.loc(),
+                attr = ast.Attribute(
+                    value=node,
+                    attr=atom.id,
+                    ctx=Load,
+                    **start,
+                    end_lineno=atom.end_lineno,
+                    end_col_offset=atom.end_col_offset,
                 )
+                node = xonsh_call(f"__xonsh__.{fn}", attr, **start, **tok.loc_end())
         return node
 
     def expand_env_expr(
